@@ -717,6 +717,8 @@ primaryexpr(struct scope *s)
 		d = scopegetdecl(s, tok.lit, 1);
 		if (!d)
 			error(&tok.loc, "undeclared identifier: %s", tok.lit);
+		if (d->kind == DECLTYPE)
+			error(&tok.loc, "unexpected type name '%s', expected expression", tok.lit);
 		e = mkexpr(EXPRIDENT, d->type, NULL);
 		e->qual = d->qual;
 		e->lvalue = d->kind == DECLOBJECT;
